@@ -638,5 +638,38 @@ def r19_12(ctx):
     return r
 
 
+def r19_13(ctx):
+    """'each source stream maps to one stable output SSRC ..., output sequence numbers are consecutive ..., independently for
+    every concurrent source stream': all of that lives in the per-source entry of RewriteBridge.streams. An entry is
+    created on the first packet of a source and must stay for the life of the bridge: clearing or evicting entries (a cap
+    on the table, say) restarts the sequence / timestamp mapping of streams that are still being forwarded. Decided:
+    rewrite_packet touches `streams` only through entry() / lookups - no clear, remove, retain or drain."""
+    r = RuleResult("R19.13", "K3", "per-source rewrite state is never evicted while the bridge lives")
+    fam = [nb for nb in ctx.facts.all_bodies() if nb.name.startswith("transports::rtp::RewriteBridge::") and "::tests::" not in nb.name]
+    if not fam:
+        raise core.CheckerError("R19.13: RewriteBridge not found")
+    n = 0
+    for nb in fam:
+        for bi, t, p in nb.calls():
+            if not p or not t["a"]:
+                continue
+            a0 = nb.term_operand(t["a"][0])
+            if not mir.has_field(a0, "streams"):
+                continue
+            m = p.split("::")[-1]
+            if m in ("borrow_mut", "borrow", "lock"):
+                continue
+            n += 1
+            if m in ("clear", "remove", "remove_entry", "retain", "drain", "pop_first", "pop_last", "truncate", "split_off"):
+                r.scope.append(nb.name)
+                r.violate(nb.name, "streams:%s" % m, nb.where(bi),
+                          "the rewrite table is shrunk with %s(): streams that are still forwarded lose their state - the next packet of each "
+                          "restarts its output sequence number and timestamp mapping" % m)
+            else:
+                r.ok({"site": nb.where(bi), "streams": m})
+    r.need("uses of the rewrite table", n, 1)
+    return r
+
+
 def run(ctx):
-    return [r19_1(ctx), r19_2(ctx), r19_3(ctx), r19_4(ctx), r19_5(ctx), r19_6(ctx), r19_7(ctx), r19_8(ctx), r19_9(ctx), r19_10(ctx), r19_11(ctx), r19_12(ctx)]
+    return [r19_1(ctx), r19_2(ctx), r19_3(ctx), r19_4(ctx), r19_5(ctx), r19_6(ctx), r19_7(ctx), r19_8(ctx), r19_9(ctx), r19_10(ctx), r19_11(ctx), r19_12(ctx), r19_13(ctx)]
